@@ -208,6 +208,13 @@ pub fn localise(ctx: &mut Context, env: &Env, root: ExprRef) -> Option<(String, 
                 if let Err((kind, msg)) = compare_value(ctx, &got, &exp) {
                     let args: Vec<String> =
                         children(&ctx[n]).iter().map(|c| cache[c].short()).collect();
+                    // array equality: keep the direction of the error in the signature
+                    let kind = match (&exp, op, kind.as_str()) {
+                        (Val::Bv(b), "ArrayEqual", "wrong-value") => {
+                            if b.v == BigUint::one() { "wrong-value/false-for-equal-arrays".to_string() } else { "wrong-value/true-for-different-arrays".to_string() }
+                        }
+                        _ => kind,
+                    };
                     return Some((
                         format!("{}/{}/{}", op, w, kind),
                         format!("{}({}) : {}", op, args.join(", "), msg),
